@@ -1,5 +1,168 @@
-From Coq Require Import List NArith ZArith.
+(* C25 -- cluster clients contact a bounded sample of current hosts.
+   "A cluster client request tries at most three distinct hosts (exactly one for single-attempt calls),
+    all taken from the current host list, before giving up; sampling n hosts from a list yields
+    min(n, list size) distinct members."
+   Statements only; every proof is `exact <lemma from Proof/C25.v>`.
+
+   Reading guide.  A Go map is the duplicate-free list of its keys in the order `range` visits them.
+   hosts = the current host list (what Resolve() returned), sord = ANY order in which Sample's
+   `range s` visits it, iord = ANY order in which the client's `range addrs` visits the sample,
+   oc = ANY assignment of outcomes (success / network error / other error) to hosts.
+   The model is the code WITH fixes/C25_sample_returns_sample.patch; `*_prefix` is the pinned code. *)
+From Coq Require Import List NArith ZArith Permutation.
+From K.Gen Require Import C25_consts.
 From K.Model Require Import C25.
 From K.Proof Require C25.
-Theorem C25_placeholder : True.
-Proof. exact Proof.C25.trivial_true. Qed.
+Import ListNotations.
+
+(* the sample sizes are the ones written in the source (regenerated from /repo on every run) *)
+Example C25_sample_sizes_in_source :
+  tag_do_sample_size = 3%Z /\ blob_locations_sample_size = 3%Z /\ tag_doonce_sample_size = 1%Z.
+Proof. vm_compute. repeat split; reflexivity. Qed.
+
+(* ---- clause: sampling n hosts yields min(n, size) distinct members --------------------------- *)
+Theorem C25_sample_card : forall s order n,
+  NoDup s -> Permutation order s -> (0 <= n)%Z ->
+  length (sample n order) = Nat.min (Z.to_nat n) (length s) /\
+  NoDup (sample n order) /\ incl (sample n order) s.
+Proof. exact Proof.C25.sample_card. Qed.
+Print Assumptions C25_sample_card.
+
+(* outside the clause's scope (n < 0 cannot be "n hosts"): stated so that the totalisation is visible *)
+Theorem C25_sample_negative_whole : forall s order n,
+  NoDup s -> Permutation order s -> (n < 0)%Z -> sample n order = order.
+Proof. exact Proof.C25.sample_negative_whole. Qed.
+Print Assumptions C25_sample_negative_whole.
+
+(* ---- clause: at most three distinct hosts, all from the current list ---------------------------- *)
+Theorem C25_do_bound : forall hosts sord iord oc,
+  NoDup hosts -> Permutation sord hosts -> Permutation iord (sample tag_do_sample_size sord) ->
+  let cs := contacted (tag_do sord iord oc) in NoDup cs /\ incl cs hosts /\ length cs <= 3.
+Proof. exact Proof.C25.do_bound. Qed.
+Print Assumptions C25_do_bound.
+
+Theorem C25_locations_bound : forall hosts sord iord oc,
+  NoDup hosts -> Permutation sord hosts -> Permutation iord (sample blob_locations_sample_size sord) ->
+  let cs := contacted (blob_locations sord iord oc) in NoDup cs /\ incl cs hosts /\ length cs <= 3.
+Proof. exact Proof.C25.locations_bound. Qed.
+Print Assumptions C25_locations_bound.
+
+(* ---- clause: exactly one for single-attempt calls ------------------------------------------------ *)
+Theorem C25_doOnce_exactly_one : forall hosts sord iord oc,
+  NoDup hosts -> Permutation sord hosts -> Permutation iord (sample tag_doonce_sample_size sord) ->
+  (hosts <> [] -> exists a, tag_do_once sord iord oc = OReq [a] (negb (is_err (oc a))) /\ In a hosts) /\
+  (hosts = [] -> tag_do_once sord iord oc = OReq [] false).
+Proof. exact Proof.C25.do_once_exactly_one. Qed.
+Print Assumptions C25_doOnce_exactly_one.
+
+(* ---- clause: "... before giving up" ------------------------------------------------------------------
+   do: an empty list fails without contacting anyone; otherwise somebody is tried; every host but the
+   last one tried had a network error; the result is the last host's; and the client gives up on network
+   errors only after min(3, |hosts|) hosts *)
+Theorem C25_do_stops_on_non_network_error : forall hosts sord iord oc,
+  NoDup hosts -> Permutation sord hosts -> Permutation iord (sample tag_do_sample_size sord) ->
+  let o := tag_do sord iord oc in
+  (hosts = [] -> o = OReq [] false) /\
+  (hosts <> [] -> contacted o <> []) /\
+  (forall p l, contacted o = p ++ [l] ->
+     Forall (fun a => oc a = NetErr) p /\
+     succeeded o = negb (is_err (oc l)) /\
+     (oc l = NetErr -> length (contacted o) = Nat.min 3 (length hosts))).
+Proof. exact Proof.C25.do_stops. Qed.
+Print Assumptions C25_do_stops_on_non_network_error.
+
+(* Locations: the same with "any error" in place of "network error" *)
+Theorem C25_locations_stops_on_success : forall hosts sord iord oc,
+  NoDup hosts -> Permutation sord hosts -> Permutation iord (sample blob_locations_sample_size sord) ->
+  let o := blob_locations sord iord oc in
+  (hosts = [] -> o = OReq [] false) /\
+  (hosts <> [] -> contacted o <> []) /\
+  (forall p l, contacted o = p ++ [l] ->
+     Forall (fun a => oc a <> Ok) p /\
+     succeeded o = negb (is_err (oc l)) /\
+     (oc l <> Ok -> length (contacted o) = Nat.min 3 (length hosts))).
+Proof. exact Proof.C25.locations_stops. Qed.
+Print Assumptions C25_locations_stops_on_success.
+
+(* ---- executable forms ------------------------------------------------------------------------------ *)
+
+(* the boolean `legal` used by the evaluators is exactly "is an iteration order of the set" *)
+Theorem C25_legal_iff_permutation : forall ord s, NoDup s -> (legal ord s = true <-> Permutation ord s).
+Proof. exact Proof.C25.legal_perm. Qed.
+Print Assumptions C25_legal_iff_permutation.
+
+(* the property oracle holds on everything the model can output *)
+Theorem C25_check_sound : forall i sord iord,
+  oracles_ok i sord iord -> C25_check i (run i sord iord) = true.
+Proof. exact Proof.C25.check_sound. Qed.
+Print Assumptions C25_check_sound.
+
+(* the correspondence check is independent of map order: whichever legal orders the implementation's
+   maps took, re-running the model on the order reconstructed from the observation reproduces it *)
+Theorem C25_recon_complete : forall i sord iord,
+  oracles_ok i sord iord -> agrees i (run i sord iord) = true.
+Proof. exact Proof.C25.recon_complete. Qed.
+Print Assumptions C25_recon_complete.
+
+(* and an observation the correspondence accepts satisfies the property *)
+Theorem C25_agrees_implies_check : forall i o,
+  NoDup (set_of i) -> agrees i o = true -> C25_check i o = true.
+Proof. exact Proof.C25.agrees_implies_check. Qed.
+Print Assumptions C25_agrees_implies_check.
+
+(* ---- the pinned code: Sample returns the whole set ------------------------------------------------- *)
+Theorem C25_sample_prefix_refuted : exists n order,
+  (0 <= n)%Z /\ NoDup order /\ length (sample_prefix n order) <> Nat.min (Z.to_nat n) (length order).
+Proof. exact Proof.C25.sample_prefix_refuted. Qed.
+Print Assumptions C25_sample_prefix_refuted.
+
+Theorem C25_do_prefix_refuted : exists hosts sord iord oc,
+  NoDup hosts /\ Permutation sord hosts /\ Permutation iord (sample_prefix tag_do_sample_size sord) /\
+  3 < length (contacted (tag_do_prefix sord iord (oc_of oc))).
+Proof. exact Proof.C25.do_prefix_refuted. Qed.
+Print Assumptions C25_do_prefix_refuted.
+
+Theorem C25_locations_prefix_refuted : exists hosts sord iord oc,
+  NoDup hosts /\ Permutation sord hosts /\ Permutation iord (sample_prefix blob_locations_sample_size sord) /\
+  3 < length (contacted (blob_locations_prefix sord iord (oc_of oc))).
+Proof. exact Proof.C25.locations_prefix_refuted. Qed.
+Print Assumptions C25_locations_prefix_refuted.
+
+(* the single-attempt clause holds on the pinned code too *)
+Theorem C25_doOnce_prefix_exactly_one : forall hosts sord iord oc,
+  NoDup hosts -> Permutation sord hosts -> Permutation iord (sample_prefix tag_doonce_sample_size sord) ->
+  hosts <> [] -> exists a, tag_do_once_prefix sord iord oc = OReq [a] (negb (is_err (oc a))) /\ In a hosts.
+Proof. exact Proof.C25.do_once_prefix_exactly_one. Qed.
+Print Assumptions C25_doOnce_prefix_exactly_one.
+
+(* ---- non-vacuity: concrete hosts, orders and faults meeting the hypotheses (legal = Permutation) ---- *)
+Example C25_nonvacuous_do :
+  let hosts := [1; 2; 3; 4; 5]%N in let sord := [4; 2; 5; 1; 3]%N in let iord := [2; 5; 4]%N in
+  nodupb hosts = true /\ legal sord hosts = true /\ legal iord (sample tag_do_sample_size sord) = true /\
+  tag_do sord iord (oc_of [(2, NetErr); (5, OtherErr); (4, Ok)]%N) = OReq [2; 5]%N false /\
+  tag_do sord iord (oc_of [(2, NetErr); (5, NetErr); (4, NetErr)]%N) = OReq [2; 5; 4]%N false /\
+  blob_locations sord iord (oc_of [(2, NetErr); (5, OtherErr); (4, Ok)]%N) = OReq [2; 5; 4]%N true.
+Proof. vm_compute. repeat split; reflexivity. Qed.
+
+Example C25_nonvacuous_once :
+  let hosts := [1; 2; 3; 4; 5]%N in let sord := [4; 2; 5; 1; 3]%N in
+  legal sord hosts = true /\ legal [4]%N (sample tag_doonce_sample_size sord) = true /\
+  tag_do_once sord [4]%N (oc_of [(4, NetErr)]%N) = OReq [4]%N false.
+Proof. vm_compute. repeat split; reflexivity. Qed.
+
+Example C25_nonvacuous_sample :
+  legal [7; 3; 9; 1]%N [1; 3; 7; 9]%N = true /\ sample 2 [7; 3; 9; 1]%N = [7; 3]%N /\
+  sample 9 [7; 3; 9; 1]%N = [7; 3; 9; 1]%N /\ sample 0 [7; 3; 9; 1]%N = [].
+Proof. vm_compute. repeat split; reflexivity. Qed.
+
+(* the refutation witnesses are harness seed cases (seed-sample-witness, seed-do-witness,
+   seed-loc-witness): on the pinned code the oracle and the correspondence both reject them *)
+Example C25_witnesses_rejected :
+  let i1 := ISample [0; 1; 2; 3]%N 3 in
+  let i2 := IReq KDo [0; 1; 2; 3]%N all_net in
+  let i3 := IReq KLoc [0; 1; 2; 3]%N all_500 in
+  let ord := [0; 1; 2; 3]%N in
+  C25_check i1 (run_prefix i1 ord []) = false /\ agrees i1 (run_prefix i1 ord []) = false /\
+  C25_check i2 (run_prefix i2 ord ord) = false /\ agrees i2 (run_prefix i2 ord ord) = false /\
+  C25_check i3 (run_prefix i3 ord ord) = false /\ agrees i3 (run_prefix i3 ord ord) = false.
+Proof. vm_compute. repeat split; reflexivity. Qed.
